@@ -73,6 +73,11 @@ def approx (comp : String) : P String := do
   -- model of the graph tables + evaluateGraph on the implementation's action
   let mg := evalGraph A ia (lsGraph A rs)
   let v := v.diffIf (mg != iv) s!"{comp}.evaluateGraph model={showQ mg} impl={showQ iv}"
+  -- LocalSearch only: its loop ends after a sweep without update, so (model theorem `lsSweep_fixpoint`) the result
+  -- is a 1-opt local optimum; a mismatch is a model/implementation difference, not a property failure
+  let improvable := comp == "LocalSearch" && validAct A ia &&
+    (List.range A.length).any (fun u => (List.range (A.getD u 0)).any (fun k => decide (truth < payoffL rs (setAt ia u k))))
+  let v := v.diffIf improvable s!"{comp}.local_optimum action={ia} can be improved by a single agent"
   return v.render
 
 /-! ### UCVE -/
